@@ -1,7 +1,9 @@
 package main
 
 import (
+	"go/ast"
 	"go/token"
+	"strconv"
 	"strings"
 
 	"golang.org/x/tools/go/ssa"
@@ -377,5 +379,519 @@ func c20FreshFilter(r *R) {
 	}
 	if n == 0 {
 		r.Bad(rule, fn, "per-cluster paging goroutine", fn.Pos(), "backend call not found")
+	}
+}
+
+func init() {
+	extraRules["C05"] = append(extraRules["C05"], c05DefaultClass)
+	extraRules["C10"] = append(extraRules["C10"], c10SegmentEveryFile)
+	extraRules["C11"] = append(extraRules["C11"], c11GiveUpOnlyWhenExhausted)
+	extraRules["C13"] = append(extraRules["C13"], c13WaitIsBarrier)
+	extraRules["C09"] = append(extraRules["C09"], c13WaitIsBarrier)
+	extraRules["C14"] = append(extraRules["C14"], c14StartingOnlyPromoted)
+	extraRules["C15"] = append(extraRules["C15"], c15VanishedAlwaysDropped)
+	extraRules["C16"] = append(extraRules["C16"], c16ScratchFormula)
+}
+
+// c05DefaultClass (C05-R9): the storage class "default" is always in the table of classes the balancer considers,
+// whether or not any mount offers it. Blocks of collections without explicit classes desire "default"; if the
+// class is missing from bal.classes, balanceBlock never looks at that desire: the block is not under-replicated
+// for any class it considers (so its replicas may be trashed) and is never reported lost.
+func c05DefaultClass(r *R) {
+	const rule = "C05-R9"
+	r.Rule(rule, "setupLookupTables: on every path bal.classes is first set to a list containing \"default\" (defaultClasses) and afterwards only grows by append — the default class is considered even when no mount offers it", 1)
+	fn := r.NeedFn(rule, "(*"+kb+".Balancer).setupLookupTables")
+	if fn == nil {
+		return
+	}
+	// the package-level defaultClasses literal contains "default"
+	globalHasDefault := false
+	if pkg := r.W.Pkg(kb); pkg != nil {
+		for _, f := range pkg.Syntax {
+			ast_inspectValueSpec(f, "defaultClasses", func(lits []string) {
+				for _, l := range lits {
+					if l == "default" {
+						globalHasDefault = true
+					}
+				}
+			})
+		}
+	}
+	var hasDefault func(v ssa.Value, depth int) bool
+	hasDefault = func(v ssa.Value, depth int) bool {
+		if depth > 4 {
+			return false
+		}
+		v = Resolve1(v)
+		if g, ok := LoadedGlobal(v); ok && g == kb+".defaultClasses" {
+			return globalHasDefault
+		}
+		if sl, ok := v.(*ssa.Slice); ok {
+			if al, ok := sl.X.(*ssa.Alloc); ok {
+				for _, ref := range *al.Referrers() {
+					if ia, ok := ref.(*ssa.IndexAddr); ok {
+						for _, rr := range *ia.Referrers() {
+							if st, ok := rr.(*ssa.Store); ok {
+								if s, isC := ConstString(st.Val); isC && s == "default" {
+									return true
+								}
+							}
+						}
+					}
+				}
+			}
+			return hasDefault(sl.X, depth+1)
+		}
+		if c, ok := v.(*ssa.Call); ok && CalleeName(c.Common()) == "builtin.append" {
+			for _, a := range c.Call.Args {
+				if hasDefault(a, depth+1) {
+					return true
+				}
+			}
+		}
+		return false
+	}
+	var inits []ssa.Instruction
+	okGrow := true
+	var badStore *ssa.Store
+	for _, st := range StoresToField(fn, kb+".Balancer", "classes") {
+		if hasDefault(st.Val, 0) {
+			inits = append(inits, st)
+			continue
+		}
+		// growth: append(bal.classes, …)
+		grow := false
+		if c, ok := Resolve1(st.Val).(*ssa.Call); ok && CalleeName(c.Common()) == "builtin.append" {
+			grow = IsFieldLoad(Resolve1(c.Call.Args[0]), kb+".Balancer", "classes")
+		}
+		if !grow {
+			okGrow = false
+			badStore = st
+		}
+	}
+	for _, cl := range ClosuresAndHelpers(fn) {
+		if cl == fn {
+			continue
+		}
+		for _, st := range StoresToField(cl, kb+".Balancer", "classes") {
+			grow := false
+			if c, ok := Resolve1(st.Val).(*ssa.Call); ok && CalleeName(c.Common()) == "builtin.append" {
+				grow = IsFieldLoad(Resolve1(c.Call.Args[0]), kb+".Balancer", "classes")
+			}
+			if !grow {
+				okGrow = false
+				badStore = st
+			}
+		}
+	}
+	ok := len(inits) > 0 && okGrow
+	for _, ret := range Returns(fn) {
+		if len(inits) == 0 || !MustPassFromEntry(fn, ret, inits) {
+			ok = false
+		}
+	}
+	pos := fn.Pos()
+	if badStore != nil {
+		pos = badStore.Pos()
+	}
+	r.Check(ok, rule, fn, "bal.classes = defaultClasses; later only append", pos, "\"default\" is always a class the balancer considers",
+		"the class table is built without an unconditional \"default\" entry: on a cluster where no mount offers the default class, blocks that desire it are never seen as under-replicated (their replicas can be trashed) and are never reported lost")
+}
+
+// c10SegmentEveryFile (C10-R8): in Manifest.segment the first token of a file in a stream decides nothing about
+// the file's content — the segment iterator (which collects *all* tokens of that name) runs for every new path.
+func c10SegmentEveryFile(r *R) {
+	const rule = "C10-R8"
+	r.Rule(rule, "Manifest.segment: marking a path as done for the current stream and collecting its segments with FileSegmentIterByName(path) happen together on every path (no further condition, e.g. on the first token's length)", 1)
+	fn := r.NeedFn(rule, "(*"+mfp+".Manifest).segment")
+	if fn == nil {
+		return
+	}
+	var iter ssa.CallInstruction
+	for _, c := range CallsMatching(fn, func(n string, _ *ssa.CallCommon) bool { return strings.HasSuffix(n, ".FileSegmentIterByName") }) {
+		iter = c
+	}
+	if iter == nil {
+		r.Bad(rule, fn, "FileSegmentIterByName(path)", fn.Pos(), "segment iterator call not found")
+		return
+	}
+	path := CallArgs(iter.Common())[0]
+	n := 0
+	allInstrs(fn, func(in ssa.Instruction) {
+		mu, ok := in.(*ssa.MapUpdate)
+		if !ok || typeString(mu.Map.Type()) != "map[string]bool" || !same(mu.Key, path) {
+			return
+		}
+		if b, isC := ConstBool(mu.Value); !isC || !b {
+			return
+		}
+		n++
+		h := loopHeaderOf(mu.Block())
+		okPair := false
+		if h != nil && loopBody(h)[iter.Block()] {
+			before := MustPassBetween(h.Instrs[0], mu, []ssa.Instruction{iter.(ssa.Instruction)})
+			after := !Reach(fn, mu, h.Instrs[0], nil, map[ssa.Instruction]bool{iter.(ssa.Instruction): true})
+			okPair = before || after
+		}
+		r.Check(okPair, rule, fn, "currentStreamfiles[path] = true ⇔ FileSegmentIterByName(path)", mu.Pos(), "every file seen in a stream has all its tokens collected",
+			"a path can be marked as handled for this stream without its segments being collected (e.g. when its first token is empty): the later tokens of that file are dropped and Extract/normalisation emits the file truncated or empty")
+	})
+	if n == 0 {
+		r.Bad(rule, fn, "currentStreamfiles[path] = true", fn.Pos(), "per-stream de-duplication mark not found")
+	}
+}
+
+// derivesFromField: v is computed from a load of typ.field through phis and arithmetic with constants.
+func derivesFromField(v ssa.Value, typ, field string, depth int, seen map[ssa.Value]bool) bool {
+	v = Strip(v)
+	if v == nil || depth > 8 || seen[v] {
+		return false
+	}
+	seen[v] = true
+	if IsFieldLoad(v, typ, field) {
+		return true
+	}
+	switch x := v.(type) {
+	case *ssa.Phi:
+		for _, e := range x.Edges {
+			if derivesFromField(e, typ, field, depth+1, seen) {
+				return true
+			}
+		}
+	case *ssa.BinOp:
+		if _, isC := x.Y.(*ssa.Const); isC {
+			return derivesFromField(x.X, typ, field, depth+1, seen)
+		}
+		if _, isC := x.X.(*ssa.Const); isC {
+			return derivesFromField(x.Y, typ, field, depth+1, seen)
+		}
+	case *ssa.Convert:
+		return derivesFromField(x.X, typ, field, depth+1, seen)
+	}
+	return false
+}
+
+// c11GiveUpOnlyWhenExhausted (C11-R8): putReplicas reports failure from inside the retry loop only when no retry round is left.
+func c11GiveUpOnlyWhenExhausted(r *R) {
+	const rule = "C11-R8"
+	r.Rule(rule, "putReplicas: an error return inside the retry loop is reached only under `retries remaining == 0` (the counter that starts at 1+kc.Retries) — transient failures are retried up to the retry limit, whatever the replica arithmetic says", 1)
+	fn := r.NeedFn(rule, "(*"+kcl+".KeepClient).putReplicas")
+	if fn == nil {
+		return
+	}
+	retriesVP := func(v ssa.Value) bool {
+		return derivesFromField(v, kcl+".KeepClient", "Retries", 0, map[ssa.Value]bool{})
+	}
+	exhausted := IntC("retriesRemaining == 0", retriesVP, token.LEQ, 0, true)
+	n := 0
+	for _, ret := range Returns(fn) {
+		if succ, _ := IsSuccessReturn(ret); succ {
+			continue
+		}
+		if loopHeaderOf(ret.Block()) == nil {
+			// after the loop: not a give-up inside a round
+			inLoop := false
+			for _, p := range ret.Block().Preds {
+				if loopHeaderOf(p) != nil {
+					inLoop = true
+				}
+			}
+			if !inLoop {
+				continue
+			}
+		}
+		n++
+		ok := GuardOrPass(fn, nil, ret, nil, exhausted)
+		r.Check(ok, rule, fn, "return InsufficientReplicasError", ret.Pos(), "only when no retry round remains",
+			"Put can give up while retry rounds remain (e.g. because the retry list looks too short for the missing replicas): a transient failure is not retried although a retried server could still store enough replicas")
+	}
+	// the number of rounds is 1 + Retries
+	okInit := false
+	allInstrs(fn, func(in ssa.Instruction) {
+		bo, ok := in.(*ssa.BinOp)
+		if !ok || bo.Op != token.ADD {
+			return
+		}
+		x, y := bo.X, bo.Y
+		if _, isC := x.(*ssa.Const); !isC {
+			x, y = y, x
+		}
+		if k, isC := ConstInt(x); isC && k == 1 && IsFieldLoad(Strip(y), kcl+".KeepClient", "Retries") {
+			okInit = true
+		}
+	})
+	r.Check(okInit && n > 0, rule, fn, "retriesRemaining := 1 + kc.Retries", fn.Pos(), "one attempt plus the configured retries", "the attempt counter is not 1 + kc.Retries, or no give-up return was found in the retry loop")
+}
+
+// c13WaitIsBarrier (C13-R6): contextGroup.Wait returns only after every function started with Go has returned.
+// dirnode.flush/marshalManifest run commitBlock(sync) through a contextGroup and keep the inode locks until Wait
+// returns; the synchronous writers swap segments without taking the lock themselves — sound only if Wait is a barrier.
+func c13WaitIsBarrier(r *R) {
+	rule := r.Prop + "-R6"
+	if r.Prop == "C09" {
+		rule = "C09-R8"
+	}
+	r.Rule(rule, "contextGroup.Wait calls wg.Wait() itself on every path before returning (a barrier, also after an error or cancellation): callers release the inode locks right after Wait, and synchronous block writers modify segments without locking", 1)
+	fn := r.NeedFn(rule, "(*"+arv+".contextGroup).Wait")
+	if fn == nil {
+		return
+	}
+	var waits []ssa.Instruction
+	for _, c := range CallsIn(fn, "(*sync.WaitGroup).Wait") {
+		if _, isGo := c.(*ssa.Go); isGo {
+			continue
+		}
+		if _, isDefer := c.(*ssa.Defer); isDefer {
+			continue
+		}
+		waits = append(waits, c.(ssa.Instruction))
+	}
+	ok := len(waits) > 0
+	for _, ret := range Returns(fn) {
+		if !MustPassFromEntry(fn, ret, waits) {
+			ok = false
+		}
+	}
+	r.Check(ok, rule, fn, "cg.wg.Wait()", fn.Pos(), "Wait returns only after all added functions returned",
+		"Wait can return while a function added with Go is still running (e.g. as soon as one of them failed): flush/marshalManifest then unlock the files while a block write is in flight, and its completion later overwrites newer data with a stale stored segment")
+}
+
+// c14StartingOnlyPromoted (C14-R10): a runner leaves wkr.starting only by becoming wkr.running[uuid].
+func c14StartingOnlyPromoted(r *R) {
+	const rule = "C14-R10"
+	r.Rule(rule, "worker.starting: an entry is deleted only together with wkr.running[same uuid] = runner (promotion) — never dropped, so Running() keeps reporting a container whose crunch-run --detach is still in flight; the start goroutine promotes on every path", 2)
+	n := 0
+	for _, fn := range r.W.FuncsIn(wk) {
+		for _, c := range CallsIn(fn, "builtin.delete") {
+			a := c.Common().Args
+			if !IsFieldLoad(Resolve1(a[0]), wk+".worker", "starting") {
+				continue
+			}
+			n++
+			promoted := false
+			for _, in := range c.Block().Instrs {
+				mu, ok := in.(*ssa.MapUpdate)
+				if ok && IsFieldLoad(Resolve1(mu.Map), wk+".worker", "running") && (same(mu.Key, a[1]) || SameCanon(mu.Key, a[1])) {
+					promoted = true
+				}
+			}
+			r.Check(promoted, rule, fn, "delete(wkr.starting, uuid)", c.Pos(), "the runner is moved to wkr.running in the same step",
+				"a starting runner is dropped without becoming a running one: the pool stops reporting the container while its crunch-run may still come up, the scheduler re-locks and starts it on another instance — two processes for one container")
+		}
+	}
+	if fn := r.NeedFn(rule, "(*"+wk+".worker).startContainer"); fn != nil {
+		for _, cl := range GoBodies(fn) {
+			var dels []ssa.Instruction
+			for _, c := range CallsIn(cl, "builtin.delete") {
+				if IsFieldLoad(Resolve1(c.Common().Args[0]), wk+".worker", "starting") {
+					dels = append(dels, c.(ssa.Instruction))
+				}
+			}
+			if len(dels) == 0 {
+				continue
+			}
+			ok := true
+			for _, e := range Exits(cl) {
+				if _, isPanic := e.(*ssa.Panic); isPanic {
+					continue
+				}
+				if !MustPassFromEntry(cl, e, dels) {
+					ok = false
+				}
+			}
+			r.Check(ok, rule, cl, "start goroutine promotes starting→running", cl.Pos(), "on every path", "the start goroutine can end without moving the runner from starting to running: the entry stays in wkr.starting forever (worker never idle) or is silently lost")
+		}
+	}
+	if n == 0 {
+		r.Bad(rule, nil, "delete(wkr.starting, …)", token.NoPos, "no promotion site found")
+	}
+}
+
+// c15VanishedAlwaysDropped (C15-R9): a worker whose instance is not in the cloud's listing (and was not updated
+// after the listing started) is always removed — whatever it was running.
+func c15VanishedAlwaysDropped(r *R) {
+	const rule = "C15-R9"
+	r.Rule(rule, "Pool.sync: in the sweep over wp.workers every iteration deletes the worker unless wkr.updated.After(threshold) — no other exemption (a vanished instance's containers must be seen as exited so they are cancelled or requeued)", 1)
+	fn := r.NeedFn(rule, "(*"+wk+".Pool).sync")
+	if fn == nil {
+		return
+	}
+	n := 0
+	for _, c := range CallsIn(fn, "builtin.delete") {
+		if !IsFieldLoad(Resolve1(c.Common().Args[0]), wk+".Pool", "workers") {
+			continue
+		}
+		h := loopHeaderOf(c.Block())
+		if h == nil {
+			continue
+		}
+		n++
+		fresh := TrueC("wkr.updated.After(threshold)", func(v ssa.Value) bool {
+			cc, ok := Resolve1(v).(*ssa.Call)
+			if !ok {
+				return false
+			}
+			switch CalleeName(cc.Common()) {
+			case "(time.Time).After":
+				return IsFieldLoad(Resolve1(cc.Call.Args[0]), wk+".worker", "updated") && same(cc.Call.Args[1], paramOf(fn, "threshold"))
+			case "(time.Time).Before":
+				return IsFieldLoad(Resolve1(cc.Call.Args[1]), wk+".worker", "updated") && same(cc.Call.Args[0], paramOf(fn, "threshold"))
+			}
+			return false
+		})
+		ok := GuardOrPass(fn, h.Instrs[0], h.Instrs[0], []ssa.Instruction{c.(ssa.Instruction)}, fresh)
+		r.Check(ok, rule, fn, "delete(wp.workers, id) in every iteration", c.Pos(), "only workers updated after the listing began are kept",
+			"a worker absent from the cloud listing can be kept (e.g. because it still has containers): it is never probed again, Running() reports its dead containers as alive forever, and they are neither cancelled nor requeued")
+	}
+	if n == 0 {
+		r.Bad(rule, fn, "delete(wp.workers, id)", fn.Pos(), "sweep over wp.workers not found")
+	}
+}
+
+// c16ScratchFormula (C16-R6): EstimateScratchSpace = max(Σ tmp capacities, image) + image, decided by evaluating the
+// function's own data-flow expression (finite-domain interpretation, no shape assumed) on a grid of values.
+func c16ScratchFormula(r *R) {
+	const rule = "C16-R6"
+	r.Rule(rule, "EstimateScratchSpace: T = Σ Capacity over mounts with Kind==\"tmp\", I = estimateDockerImageSize(ctr.ContainerImage); result ≡ max(T, I) + I (evaluated from the SSA expression on a grid of T, I values; any spelling of the formula passes)", 1)
+	fn := r.NeedFn(rule, dc+".EstimateScratchSpace")
+	if fn == nil {
+		return
+	}
+	var img ssa.Value
+	for _, c := range CallsIn(fn, dc+".estimateDockerImageSize") {
+		if IsFieldLoad(Resolve1(c.Common().Args[0]), arv+".Container", "ContainerImage") {
+			img = c.Value()
+		}
+	}
+	// accumulator: phi at a loop header fed by phi/ADD(acc, m.Capacity)
+	var acc *ssa.Phi
+	var add *ssa.BinOp
+	allInstrs(fn, func(in ssa.Instruction) {
+		bo, ok := in.(*ssa.BinOp)
+		if !ok || bo.Op != token.ADD {
+			return
+		}
+		x, y := Strip(bo.X), Strip(bo.Y)
+		if _, f, _, isF := LoadedField(y); !isF || f != "Capacity" {
+			x, y = y, x
+		}
+		if _, f, _, isF := LoadedField(y); !isF || f != "Capacity" {
+			return
+		}
+		if p, isP := x.(*ssa.Phi); isP && loopHeaderOf(bo.Block()) == p.Block() {
+			acc, add = p, bo
+		}
+	})
+	if img == nil || acc == nil {
+		r.Und(rule, fn, "T and I", fn.Pos(), "tmp-capacity accumulator or image-size call not found")
+		return
+	}
+	// accumulator starts at 0 and is only changed by the guarded ADD
+	okAcc := true
+	for i, e := range acc.Edges {
+		if loopBody(acc.Block())[acc.Block().Preds[i]] {
+			if se := Strip(e); se != ssa.Value(acc) && se != ssa.Value(add) {
+				for _, l := range PhiLeaves(e) {
+					if l != ssa.Value(acc) && l != ssa.Value(add) {
+						okAcc = false
+					}
+				}
+			}
+		} else if k, isC := ConstInt(e); !isC || k != 0 {
+			okAcc = false
+		}
+	}
+	gTmp, _ := Guard(fn, nil, add, EqC("m.Kind == \"tmp\"", func(v ssa.Value) bool {
+		_, f, _, ok := LoadedField(Resolve1(v))
+		return ok && f == "Kind"
+	}, ConstStrVP("tmp")))
+	r.Check(okAcc && gTmp, rule, fn, "T = Σ m.Capacity for Kind == \"tmp\"", add.Pos(), "sum of tmp mount capacities", "the tmp-mount total is not the plain sum of the capacities of mounts of kind tmp")
+	// exit of the accumulation loop
+	var exit *ssa.BasicBlock
+	body := loopBody(acc.Block())
+	for _, s := range acc.Block().Succs {
+		if !body[s] {
+			exit = s
+		}
+	}
+	if exit == nil {
+		r.Und(rule, fn, "loop exit", fn.Pos(), "not found")
+		return
+	}
+	grid := []int64{0, 1, 2, 3, 7, 10, 64, 100, 1000, 1 << 31}
+	bad := ""
+	for _, T := range grid {
+		for _, I := range grid {
+			env := newIenv(func(v ssa.Value) (int64, bool) {
+				switch v {
+				case ssa.Value(acc):
+					return T, true
+				case img:
+					return I, true
+				}
+				return 0, false
+			})
+			ret, ok := env.runFrom(acc.Block(), exit)
+			if !ok || len(ret.Results) != 1 {
+				r.Und(rule, fn, "result expression", fn.Pos(), "the tail of the function is not pure integer arithmetic over T and I (a branch or value could not be evaluated)")
+				return
+			}
+			got, ok := env.eval(ret.Results[0])
+			if !ok {
+				r.Und(rule, fn, "result expression", ret.Pos(), "the returned value is not pure integer arithmetic over T and I")
+				return
+			}
+			want := T
+			if I > want {
+				want = I
+			}
+			want += I
+			if got != want && bad == "" {
+				bad = "for tmp=" + itoa64(T) + " image=" + itoa64(I) + " the estimate is " + itoa64(got) + ", the documented requirement max(tmp, image)+image is " + itoa64(want)
+			}
+		}
+	}
+	r.Check(bad == "", rule, fn, "needScratch ≡ max(T, I) + I", fn.Pos(), "agrees on all "+itoa(len(grid)*len(grid))+" grid points",
+		bad+": a container can be given an instance type whose scratch space cannot hold its tmp mounts plus the extracted image (or be refused a type that can)")
+}
+
+func itoa64(n int64) string {
+	if n < 0 {
+		return "-" + itoa64(-n)
+	}
+	if n < 10 {
+		return string(rune('0' + n))
+	}
+	return itoa64(n/10) + string(rune('0'+n%10))
+}
+
+// ast_inspectValueSpec calls f with the string literals found in the initialiser of package-level variable `name`.
+func ast_inspectValueSpec(file *ast.File, name string, f func(lits []string)) {
+	for _, d := range file.Decls {
+		gd, ok := d.(*ast.GenDecl)
+		if !ok {
+			continue
+		}
+		for _, s := range gd.Specs {
+			vs, ok := s.(*ast.ValueSpec)
+			if !ok {
+				continue
+			}
+			for i, n := range vs.Names {
+				if n.Name != name || i >= len(vs.Values) {
+					continue
+				}
+				var lits []string
+				ast.Inspect(vs.Values[i], func(x ast.Node) bool {
+					if bl, ok := x.(*ast.BasicLit); ok && bl.Kind == token.STRING {
+						if s, err := strconv.Unquote(bl.Value); err == nil {
+							lits = append(lits, s)
+						}
+					}
+					return true
+				})
+				f(lits)
+			}
+		}
 	}
 }
